@@ -162,4 +162,89 @@ theorem rangeUntouched_of_outside {tx : Tx} (s' lim : Bytes)
   unfold Batch.get
   rw [h1, h2]
 
+/-- exactly when the iterator yields something: the view's range is non-empty, or the committed
+    range is non-empty and the transaction has deleted ALL of it (the one false positive of
+    "is there an entry in this range": `ExistCreditFromTx`) -/
+theorem iterW_nonempty_iff {tx : Tx} (h : tx.Inv) (hw : tx.readOnly = false) (s' lim : Bytes) :
+    iterWEntries tx s' lim ≠ [] ↔
+      (tx.commit.range s' (some lim) ≠ [] ∨
+       (tx.db.range s' (some lim) ≠ [] ∧ ∀ e ∈ tx.db.range s' (some lim), (tx.b.get e.1).2 = true)) := by
+  constructor
+  · intro hne
+    by_cases hv : tx.commit.range s' (some lim) = []
+    · right
+      -- no net put lies in the range (it would be in the view)
+      have hN : ((tx.b.netPuts []).filter fun e => ble s' e.1 && blt e.1 lim) = [] := by
+        rw [List.eq_nil_iff_forall_not_mem]
+        intro e he
+        rw [List.mem_filter] at he
+        obtain ⟨k, v⟩ := e
+        have hg := ((Batch.mem_netPuts h.batch [] k v).mp he.1).2
+        have hr := he.2
+        simp only [Bool.and_eq_true] at hr
+        have : (k, v) ∈ tx.commit.range s' (some lim) := by
+          rw [SMap.mem_range]
+          refine ⟨(commit_mem_iff h hw k v).mpr ?_, hr.1, hr.2⟩
+          unfold view; rw [hg]
+        rw [hv] at this; cases this
+      have hC : tx.db.range s' (some lim) ≠ [] := by
+        intro hC; apply hne; unfold iterWEntries; rw [hC, hN]; rfl
+      refine ⟨hC, ?_⟩
+      intro e he
+      obtain ⟨k, v⟩ := e
+      have hm := SMap.mem_range.mp he
+      rcases Batch.get_cases tx.b k with hg | ⟨v', hg⟩ | hg
+      · simp only [hg]
+      · have : (k, v') ∈ tx.commit.range s' (some lim) := by
+          rw [SMap.mem_range]
+          refine ⟨(commit_mem_iff h hw k v').mpr ?_, hm.2.1, hm.2.2⟩
+          unfold view; rw [hg]
+        rw [hv] at this; cases this
+      · have : (k, v) ∈ tx.commit.range s' (some lim) := by
+          rw [SMap.mem_range]
+          refine ⟨(commit_mem_iff h hw k v).mpr ?_, hm.2.1, hm.2.2⟩
+          unfold view; rw [hg]; exact SMap.get_of_mem h.dbSorted hm.1
+        rw [hv] at this; cases this
+    · exact Or.inl hv
+  · rintro (hv | ⟨hC, _⟩)
+    · intro hnil
+      obtain ⟨e, he⟩ := List.exists_mem_of_ne_nil _ hv
+      obtain ⟨e', he', _⟩ := iterW_superset h hw s' lim e he
+      rw [hnil] at he'; cases he'
+    · intro hnil
+      unfold iterWEntries at hnil
+      exact hC (List.append_eq_nil_iff.mp hnil).1
+
+theorem drain_head (b : Bucket) (fuel : Nat) (it : LevelIter) :
+    ((drain b (fuel + 1) it).2.head?).map (·.1) = some (it.next).2 := by
+  simp only [drain]
+  cases it.next with
+  | mk it1 ok => cases ok <;> simp
+
+/-- the first `Next()` of a fresh iterator inside a write transaction succeeds iff it has anything
+    to yield -/
+theorem first_next_iff (tx : Tx) (hw : tx.readOnly = false) (b : Bucket) (st l lim : Bytes)
+    (hl : (b.iterBounds st l).2 = some lim) :
+    ((b.newIterator tx st l).next).2 = true ↔ iterWEntries tx (b.iterBounds st l).1 lim ≠ [] := by
+  have hshape := iter_write_shape tx hw b st l
+  simp only [hl] at hshape
+  have hf : drainFuel (b.newIterator tx st l) = (drainFuel (b.newIterator tx st l) - 1) + 1 := by
+    unfold drainFuel; omega
+  have hrun : runScript b (b.newIterator tx st l) [.all] =
+      (drain b (drainFuel (b.newIterator tx st l)) (b.newIterator tx st l)).2 := by
+    simp only [runScript, List.append_nil]
+  have hhead := drain_head b (drainFuel (b.newIterator tx st l) - 1) (b.newIterator tx st l)
+  rw [← hf, ← hrun, hshape, ← List.map_append] at hhead
+  unfold iterWEntries
+  cases hE : tx.db.range (b.iterBounds st l).1 (some lim) ++
+      (tx.b.netPuts []).filter (fun e => ble (b.iterBounds st l).1 e.1 && blt e.1 lim) with
+  | nil =>
+    rw [hE] at hhead
+    simp only [List.map_nil, List.nil_append, List.head?_cons, Option.map_some, Option.some.injEq] at hhead
+    rw [← hhead]; simp
+  | cons e rest =>
+    rw [hE] at hhead
+    simp only [List.map_cons, List.cons_append, List.head?_cons, Option.map_some, Option.some.injEq, yielded] at hhead
+    rw [← hhead]; simp
+
 end MW.Model.KV
